@@ -36,6 +36,13 @@ META_RULE = ("a generated corpus of Rust type expressions over every built-in co
              "meta: every unordered pair (A, B) of the corpus: ==, cmp both ways, hash, type_id equality, and type_info() equality (for equal pairs and a 1/7 sample of the others). "
              "tinfo: type_info() of every corpus type with references resolved against the corpus. Non-trivial: an equal pair of syntactically different expressions / a definition with references.")
 
+STD_RULE = ("a generated corpus of built-in type expressions (every constructor: integers, bool, String/str, arrays incl. [u8; 2^32-1] and [u8; 2^32+1], tuples of arity 0..20, Vec/VecDeque/slices, Option, Result, "
+            "Box/Rc/Arc/references, Cow, BTreeMap, BTreeSet, BinaryHeap, Compact, Range, RangeInclusive, NonZero*, Duration, PhantomData, unit, BitVec<u8|u16|u32|u64, Lsb0|Msb0>; random nesting to depth 3) "
+            "compiled against /repo; for each sized type the registry obtained by registering it and, where the codec can encode it, up to 3 values with their real SCALE bytes. "
+            "Oracle: SIM.Value.decodeVal run on the REAL registry and the REAL bytes must return exactly the expected value and no remainder; array types must be described with their true length. "
+            "Correspondence: model registry (Impls.typeInfo through the Registry model) = real registry; model encoding of the value = real bytes; tinfo: model type_info = real. "
+            "Non-trivial: a type with at least one encoded value / a definition with references.")
+
 PROPS = {
     'C12': dict(
         streams=[
@@ -128,5 +135,13 @@ PROPS = {
         rule=META_RULE,
         trusted_base=COMMON_TB + ["rustc's TypeId is an injective name of a type; the corpus is a generated Rust program compiled against /repo on every run"],
         assumptions=["pairs are drawn from a finite generated corpus (closed under sub-expressions); the theorems quantify over all type expressions of the modelled grammar"],
+    ),
+    'C04': dict(
+        streams=[dict(name='std', pg=True, mode='std', gen='gen_std.py', quick=120, thorough=900, filter=only('C04:'), also_docs=True),
+                 dict(name='tinfo', pg=True, mode='tinfo', gen='gen_std.py', quick=120, thorough=900, filter=only('C04:'))],
+        rule=STD_RULE,
+        trusted_base=COMMON_TB + ["parity-scale-codec 3.7.5's Encode impls for std types are modelled by SIM.Value.encode + Spec.ValOf and tied by comparing bytes on every generated value",
+                                  "the python generator harness/gen/texpr.py writes, for each Rust value expression, the Val it denotes (mirror of Spec.ValOf)"],
+        assumptions=["values are generated, not enumerated: integer leaves hit 0, 1, 63/64, 2^14, 2^30 boundaries, extremes and random bits; collections have 0-3 elements; BinaryHeap values have at most one element (iteration order is internal)"],
     ),
 }
